@@ -11,7 +11,7 @@ PROP_FILES = ["Git/Properties_C19.v"]
 MANIFEST = dict(
     technique="Coq proof (nested induction over git trees) on a Gallina port of git/diff.rs + check_git_diff.rs, tied by differential execution of the extracted model against GitDiff (library) and `check --diff/--staged` (CLI) on random histories built with the real git, plus git diff as an independent oracle",
     text="Theorems C19_tree_diff_exact, C19_equal_oid_equal_flatten, C19_subtree_cases, C19_range_parse, C19_diff_files_exact, C19_diff_run_is_restriction, C19_staged_exact hold for all trees / indexes / file lists (unbounded; names unique per tree). The tie to the Rust code is a seeded differential run over scripted git histories (adds, edits, deletions, renames, chmod, file<->directory swaps, nesting, branches, tags, merges, symlinks, submodule entries, empty repository, staged/partially staged states) and every ref/range spelling, at library level (raw sets) and CLI level (reported files, statuses, structure results), and git diff --raw/--name-only --no-renames as second oracle.",
-    note="Trusted: Coq kernel, extraction (ExtrOcamlBasic), harness sgv-git, gix object reading and rev-parsing (entering as data: the two trees / the index are read with git ls-tree / ls-files), SHA-1 collision freeness (object-id equality is modelled as structural equality), std::fs::canonicalize (entering as a table computed with os.path.realpath). Mode-only changes are not content changes (removed from the git-diff oracle).",
+    note="Trusted: Coq kernel, extraction (ExtrOcamlBasic), harness sgv-git, gix object reading and rev-parsing (entering as data: the two trees / the index are read with git ls-tree / ls-files), SHA-1 collision freeness (object-id equality is modelled as structural equality), std::fs::canonicalize (entering as a table computed with os.path.realpath). Mode-only changes are changes, as for git diff --name-only (fix D70); git diff records that touch only symlinks / submodules are not about regular files and are left out of the oracle.",
     ref="5 (C19)")
 
 SG_ARGS = ["check", "--format", "json", "--color", "never"]
@@ -37,17 +37,13 @@ REG = ("100644", "100755")
 
 
 def regular_change(r):
-    """Does a git diff --raw record (srcmode, dstmode, srcoid, dstoid, status, path) describe a change of
-    regular-file content?  Mode-only changes (same blob, both regular) are not content changes; records
-    where neither side is a regular file (symlink / submodule added, deleted, retargeted) do not concern
-    regular files at all.  A regular file replaced by a link (or the reverse) does, even when the blob id
-    happens to be the same."""
-    src_reg, dst_reg = r[0] in REG, r[1] in REG
-    if not (src_reg or dst_reg):
-        return False
-    if src_reg and dst_reg:
-        return r[2] != r[3]
-    return True
+    """Does a git diff --raw record (srcmode, dstmode, srcoid, dstoid, status, path) describe a change of a
+    regular file?  Every record with a regular file on either side does: content changes, mode-only
+    changes (chmod; C19 asks for agreement with git diff --name-only on histories with mode changes, fix
+    D70), and a regular file replaced by a link or the reverse, even when the blob id happens to be the
+    same.  Records where neither side is a regular file (symlink / submodule added, deleted, retargeted)
+    do not concern regular files at all."""
+    return r[0] in REG or r[1] in REG
 
 
 def stable_py(a, b):
@@ -67,7 +63,7 @@ def stable_py(a, b):
 
 def spec_sets(fa, fb):
     """right-hand sides of C19_tree_diff_exact on flattened trees (path -> (kind, oid))"""
-    reg = lambda d, p: d[p][1] if p in d and d[p][0] in "bx" else None
+    reg = lambda d, p: d[p] if p in d and d[p][0] in "bx" else None        # (mode, id) of a regular file
     chg = sorted(p for p in fb if reg(fb, p) is not None and reg(fa, p) != reg(fb, p))
     dele = sorted(p for p in fa if reg(fa, p) is not None and reg(fb, p) is None)
     return chg, dele
